@@ -36,6 +36,10 @@ def build_obj(spec):
         o = Amplitude(f"{tensor_names.gs_amplitude}2", t[:h], t[h:])
     elif kind == "tcc":
         o = Amplitude(f"{tensor_names.gs_amplitude}1cc", t[:h], t[h:])
+    elif kind == "t0":      # ground state amplitudes without a perturbation order in the name
+        o = Amplitude(tensor_names.gs_amplitude, t[:h], t[h:])
+    elif kind == "t0cc":
+        o = Amplitude(f"{tensor_names.gs_amplitude}cc", t[:h], t[h:])
     elif kind == "Y":
         o = Amplitude(tensor_names.right_adc_amplitude, t[:h], t[h:])
     elif kind == "Yh":     # IP / EA amplitude vectors: an empty index group
@@ -65,8 +69,8 @@ def gen_cases(tier, seed):
         for _t in range(rng.randint(1, 3)):
             objs = []
             for _o in range(rng.randint(1, 3)):
-                k = rng.choice(["V", "f", "v", "t", "tcc", "Y", "e", "X", "d", "p", "Yh", "Xp"])
-                n = {"V": 4, "v": 4, "t": 4, "tcc": 2, "Y": 2, "f": 2, "e": 1, "d": 2, "p": 2}.get(k, rng.randint(1, 3))
+                k = rng.choice(["V", "f", "v", "t", "tcc", "Y", "e", "X", "d", "p", "Yh", "Xp", "t0", "t0cc"])
+                n = {"V": 4, "v": 4, "t": 4, "tcc": 2, "t0": 4, "t0cc": 2, "Y": 2, "f": 2, "e": 1, "d": 2, "p": 2}.get(k, rng.randint(1, 3))
                 idxs = [rng.randrange(len(POOL)) for _ in range(n)]
                 objs.append([k, idxs, rng.choice([1, 1, 1, 2])])
             pref = rng.choice([[1, 1], [-1, 2], [3, 4], [2, 1]])
@@ -138,6 +142,6 @@ def check(case):
 CHECKS = {
     "latex.roundtrip": {
         "function": "adcgen.func:import_from_sympy_latex", "cases": gen_cases, "check": check,
-        "bound": "sums of <= 3 terms of <= 3 objects (ERI, Coulomb, Fock, t / t-cc / ADC amplitudes incl. vectors with an empty upper or lower index group, densities, orbital energies, deltas, unknown tensors) with exponents <= 2, rational and sqrt prefactors, orbital energy denominators, spin labelled and numbered indices; plus a symbolic denominator and an operator / normal ordered product",
+        "bound": "sums of <= 3 terms of <= 3 objects (ERI, Coulomb, Fock, t / t-cc (with and without an order in the name) / ADC amplitudes incl. vectors with an empty upper or lower index group, densities, orbital energies, deltas, unknown tensors) with exponents <= 2, rational and sqrt prefactors, orbital energy denominators, spin labelled and numbered indices; plus a symbolic denominator and an operator / normal ordered product",
     },
 }
